@@ -77,6 +77,7 @@ type Tracker struct {
 	regions  []*region // sorted by base
 	free     []*buf    // recycle list
 	trace    []string
+	last     string
 	viol     []Violation
 	seen     map[string]bool
 	nMalloc  int
@@ -103,6 +104,7 @@ func (t *Tracker) reset() {
 	t.regions = nil
 	t.free = nil
 	t.trace = nil
+	t.last = ""
 	t.viol = nil
 	t.seen = map[string]bool{}
 	t.nMalloc, t.nFree, t.peakLive, t.nLive = 0, 0, 0, 0
@@ -151,9 +153,11 @@ func (t *Tracker) report(oracle, key, format string, a ...interface{}) {
 func (t *Tracker) ev(format string, a ...interface{}) {
 	s := fmt.Sprintf(format, a...)
 	// runs of the same event (a1 a1 a1) are one event: how a producer slices its appends is not ownership
-	if n := len(t.trace); n > 0 && t.trace[n-1] == s && s[0] == 'a' {
+	// (the comparison is with the last event ever logged, also across TakeTrace calls)
+	if t.last == s && s[0] == 'a' {
 		return
 	}
+	t.last = s
 	t.trace = append(t.trace, s)
 }
 
